@@ -88,3 +88,31 @@ Example ex_C20_window :
       [(s "p", s "role:dir")];          (* directory file re-applied: new *)
       [(s "p", s "role:dir")] ].        (* defaults merged: new *)
 Proof. vm_compute. reflexivity. Qed.
+
+(* ---------- the same defect seen from the deciding thread ----------
+   enforce fetches the definition of the enforced rule from the shared store and then evaluates it; the rule:
+   references inside it are resolved against the store AS IT IS WHEN THEY ARE REACHED.  A decider that is preempted
+   between the two, while a whole reload goes by, evaluates the OLD definition of p against the NEW store: for roles
+   [m] it allows, although the old policy (p -> h -> role:o) and the new one (p = role:n) both deny.  This is the
+   scenario "ref-edit" of the harness (known finding mixed-decider:ref-edit:after-lookup). *)
+Definition fs_ref_old : fsys :=
+  {| fs_main := Some (f_ 1%N [(s "p", JStr (s "rule:h")); (s "h", JStr (s "role:o"))]); fs_dirs := [] |}.
+Definition fs_ref_new : fsys :=
+  {| fs_main := Some (f_ 5%N [(s "p", JStr (s "role:n")); (s "h", JStr (s "role:m"))]); fs_dirs := [] |}.
+Definition world_of (rs : store) : world :=
+  {| w_rules := rs; w_default := DName (s "default"); w_target := JDict [];
+     w_creds := JDict [(s "roles", JList [JStr (s "m")])];
+     w_lit := fun _ => LitRaise (EOther 0%N); w_http := fun _ _ => HTimeout; w_custom := fun _ _ => Ok false |}.
+Definition decide (definition_from store_at_evaluation : store) : option (res bool) :=
+  match lookup definition_from (DName (s "default")) (s "p") with
+  | Some c => Some (eval 50 (world_of store_at_evaluation) (Some (s "p")) c)
+  | None => None
+  end.
+
+Theorem C20_reader_refuted :
+  let s_old := load_rules cf_ init_state fs_ref_old false in
+  let old := e_rules s_old in
+  let new := e_rules (load_rules cf_ s_old fs_ref_new false) in
+  decide old old = Some (Ok false) /\ decide new new = Some (Ok false) /\ decide old new = Some (Ok true).
+Proof. vm_compute. repeat split; reflexivity. Qed.
+Print Assumptions C20_reader_refuted.
